@@ -39,7 +39,7 @@ ASSUMPTIONS = [
     "width/height of the description come from the P2P table (largest listed "
     "coordinate + 1)",
 ]
-FLOORS = {"description_iterator_nested": 80, "code_name_compared": 100, "iobuf_non_ascii": 15, "system_info_checked": 150, "chip_info_compared": 1200,
+FLOORS = {"iobuf_chain_of_hundreds": 3, "description_iterator_nested": 80, "code_name_compared": 100, "iobuf_non_ascii": 15, "system_info_checked": 150, "chip_info_compared": 1200,
           "machine_model_checked": 150, "core_constraints_checked": 150,
           "processor_status_checked": 150, "iobuf_checked": 150,
           "p2p_table_checked": 100, "unresponsive_chip": 100}
@@ -130,6 +130,10 @@ def gen(cls, idx, rng, tier):
         xy = rng.choice(pool)
         p = rng.randrange(chips[xy]["ncores"])
         nblk = rng.randint(0, 4) if cls == "iobuf" else rng.randint(0, 2)
+        if cls == "iobuf" and rng.random() < .08:
+            # a console that was written to for a long time: a chain of
+            # hundreds of buffers
+            nblk = rng.choice([127, 128, 129, 130, 200, 256, 257, 300, 500])
         probes.append(dict(
             chip=xy, p=p, seed=rng.randrange(1 << 30),
             iobuf=[rng.randint(0, 64) for _ in range(nblk)],
@@ -418,7 +422,12 @@ def run(case, ctx):
         text = b""
         blocks = []
         for i, ln in enumerate(pb["iobuf"]):
-            blocks.append((M.IOBUF_BASE + 0x100 * (i + 1) + 0x1000 * p, ln))
+            blocks.append((M.IOBUF_BASE + 0x100 * (i + 1) + 0x1000 * p, ln)
+                          if len(pb["iobuf"]) <= 15 else
+                          (M.IOBUF_BASE + 0x100000 + 0x20000 * p +
+                           0x100 * (i + 1), ln))
+        if len(blocks) > 100:
+            ctx.hit("iobuf_chain_of_hundreds")
         datas = []
         for i, (a, ln) in enumerate(blocks):
             data = bytes(32 + (rng.getrandbits(8) % 90) for _ in range(ln))
